@@ -291,6 +291,8 @@ class AbsInt:
                     v = v[1][e["f"]]
                 elif v[0] == "o" and i > 0 and isinstance(projs[i - 1], dict) and "variant" in projs[i - 1]:
                     v = v[2] if (projs[i - 1]["variant"] == v[1] and e["f"] == 0) else None
+                elif v[0] == "s" and e["f"] == 0 and e.get("ty") is not None and re.search(r"(Unique|NonNull)<\[[^\]]*\]>$|\*(const|mut) \[[^\]]*\]$", self.ty(e["ty"]).get("s", "")):
+                    pass          # Box<[T]>.0 (Unique) .pointer (NonNull): still the pointer to the same slice, same length
                 else:
                     v = None
             elif isinstance(e, dict) and "variant" in e:
